@@ -203,7 +203,7 @@ def run(ctx):
     for i in range(4 if ctx.quick else 60):
         explore2.explore(ctx, "C01", r.fork(), kindsA=("claim_oldest",), kindsB=("claim_oldest",), max_points=(7 if ctx.quick else 40), state_cmds=8,
                          weights={"new_task": 70, "new_epic": 6, "set": 10, "sequence": 14}, missing_lock=(i % 2 == 0), torn=(i % 2 == 1), with_stat=(i % 2 == 0), b_modes=("complete", "hold", "hold_read"))
-    ctx.cov["rule"] = ("claim ∥ compact/plan/prune/set two-process schedules (also on a legacy-named log) with serial-equivalence and reply oracles; real `claim` processes: claimer A parked (strace SIGSTOP) after each of its system calls between lock and unlock, claimer B run meanwhile (must get `lock busy`, promptly), "
+    ctx.cov["rule"] = ("the ready set shifting while a claimer is on its way to the lock (OLD waits for DEP, YOUNG ready; claimer parked at every call while DEP is finished / YOUNG canceled), plan and compact parked at every point against a claimer, commit order = order of the batches in the log; claim ∥ compact/plan/prune/set two-process schedules (also on a legacy-named log) with serial-equivalence and reply oracles; real `claim` processes: claimer A parked (strace SIGSTOP) after each of its system calls between lock and unlock, claimer B run meanwhile (must get `lock busy`, promptly), "
                        "A resumed; and 2–6 claimers started together under the OS scheduler; audit from the final log: each winner got the head of the ready list of the log prefix before "
                        "its claim line, claim+state lines adjacent, no task twice, replies = log, winners doing/claimed; claim's system-call program compared with the expected one")
     ctx.assumptions += ["flock(2) mutual exclusion on one host; strace does not change the order of a process's own calls"]
